@@ -93,12 +93,10 @@ func vp_C18_sender_pseudo() {
 	if err != nil {
 		return
 	}
-	// KF-C18-3: SenderID("").IsUserID() indexes the empty string
-	vpExpectPanic("KF-C18-3", sender == "")
+	// (fixed: KF-C18-3 - SenderID("").IsUserID() indexed the empty string)
 	_ = ev.SenderID().IsUserID()
 	_ = ev.SenderID().IsPseudoID()
 	_ = ev.SenderID().ToUserID()
 	_ = ev.SenderID().ToPseudoID()
-	vpEndExpect()
 	vpReach("helpers-returned", true)
 }
